@@ -327,5 +327,12 @@ def rule_r5(ctx, sf: SqlFacts) -> RuleResult:
 
 
 def run(ctx) -> list:
+    from ..core.report import shared
+    from . import c10
+
     sf = SqlFacts(ctx.index)
-    return [rule_r1(ctx), rule_r2(ctx), rule_r3(ctx, sf), rule_r4(ctx, sf), rule_r5(ctx, sf)]
+    r6 = shared(c10.rule_r12(ctx, sf), "C17.R6", "in-memory mirrors of the marking are maintained by every writer of `pages` (shared with C10.R12)",
+                "a later analysis on the same context skips templates it wrongly believes to be marked", min_instances=3)
+    r7 = shared(c10.rule_r11(ctx, sf), "C17.R7", "the work list finds every stored template by its stored title (shared with C10.R11)",
+                "a template whose stored title the reader-side normalisation changes is never reached by the propagation", min_instances=1)
+    return [rule_r1(ctx), rule_r2(ctx), rule_r3(ctx, sf), rule_r4(ctx, sf), rule_r5(ctx, sf), r6, r7]
